@@ -837,3 +837,24 @@ exec(open(_os.path.join("/verif/specs/C01", "hops_spec.py")).read())
 UNITS += HOPS_UNITS
 for _k in ("trusted_base", "assumptions", "not_decided"):
     META[_k] = list(META.get(_k, [])) + list(HOPS_META.get(_k, []))
+
+
+# ---- thread_queue_mc / queue_holder_thread (the queues of shared_priority_queue_scheduler): third sub-agent, after seeded change
+# ---- C01-4 was missed.  Two units carry a stated precondition each (observations in DESIGN.md 10.4, both latent in the pinned tree):
+# ----  mc.tq.add_new: the thread map does not refuse the new id (otherwise new_tasks_count_ of the source is never decremented for
+# ----                 the popped description: a counter leak on a defensive path, not a lost task)
+# ----  mc.tq.create_thread: run_now requests ask for `pending` (create_thread_object rewrites pending_do_not_schedule to pending in
+# ----                 the caller's data BEFORE the `== pending` test, so such a thread would be queued AND handed back; no caller
+# ----                 in pika passes pending_do_not_schedule; thread_queue::create_thread latches the decision first)
+exec(open("/verif/specs/C01/mc_spec.py").read())
+for _u in MC_UNITS:
+    if _u.name == "mc.tq.add_new":
+        _u.defines = list(_u.defines) + ["MC_EXCL_MAP_REFUSAL"]
+    if _u.name == "mc.tq.create_thread":
+        _u.defines = list(_u.defines) + ["MC_EXCL_PENDING_ALIAS"]
+UNITS += MC_UNITS
+for _k in ("trusted_base", "assumptions", "not_decided"):
+    META[_k] = list(META.get(_k, [])) + list(MC_META.get(_k, []))
+META["assumptions"] += ["mc.tq.add_new: queue_holder_thread::add_to_thread_map does not refuse the id (MC_EXCL_MAP_REFUSAL)",
+                        "mc.tq.create_thread: a run_now request does not ask for pending_do_not_schedule (MC_EXCL_PENDING_ALIAS)"]
+STATIC = list(globals().get("STATIC", [])) + list(MC_STATIC)
